@@ -77,16 +77,127 @@ Section R.
     intros Hn Hi. rewrite (gen_coll_vec RF E); [reflexivity|exact Hn|exact Hi|exact PI_neq0].
   Qed.
 
-  (** *** passivity of the generated factory on the documented domain: any non-zero gap (negative:
-      free space; positive: parallel plates), any combination of switches.  What selects a
-      contribution also puts its parameters into the range where its resistance is non-negative:
-      the wall needs [s > 0] and gets the radius [|gap/2| > 0] and the length [c/frev >= 0]; the
-      collimator needs [0 < r_coll < |gap/2|], which makes [ln(|gap/2|/r_coll)] positive. *)
+  (** *** the generated factory.  Its conditions are order tests on reals; they are EVALUATED (by
+      [lra]) in every sign case of the gap, the conductivity, the susceptibility and the collimator
+      radius, on the generated side and on the specification side alike - so any equivalent way of
+      writing the conditions, the radius [|gap/2|] or the constructor arguments proves the same
+      theorem.  Result: nothing when no switch is on, else the pointwise sum (order: CSR, wall,
+      collimator, file) of exactly the selected contributions with the documented arguments. *)
+  Lemma Rltb_t a b : a < b -> Rltb a b = true.
+  Proof. intros H. unfold Rltb. destruct (Rlt_dec a b); [reflexivity|contradiction]. Qed.
+  Lemma Rltb_f a b : ~ a < b -> Rltb a b = false.
+  Proof. intros H. unfold Rltb. destruct (Rlt_dec a b); [contradiction|reflexivity]. Qed.
+  Lemma Rleb_t a b : a <= b -> Rleb a b = true.
+  Proof. intros H. unfold Rleb. destruct (Rle_dec a b); [reflexivity|contradiction]. Qed.
+  Lemma Rleb_f a b : ~ a <= b -> Rleb a b = false.
+  Proof. intros H. unfold Rleb. destruct (Rle_dec a b); [contradiction|reflexivity]. Qed.
+  Lemma Reqb_t a b : a = b -> Reqb a b = true.
+  Proof. intros H. unfold Reqb. destruct (Req_EM_T a b); [reflexivity|contradiction]. Qed.
+  Lemma Reqb_f a b : a <> b -> Reqb a b = false.
+  Proof. intros H. unfold Reqb. destruct (Req_EM_T a b); [contradiction|reflexivity]. Qed.
   Lemma Rltb_true a b : Rltb a b = true -> a < b.
   Proof. unfold Rltb. destruct (Rlt_dec a b); [trivial|discriminate]. Qed.
   Lemma Reqb_false a b : Reqb a b = false -> a <> b.
   Proof. unfold Reqb. destruct (Req_EM_T a b); [discriminate|trivial]. Qed.
 
+  Ltac ord := first [assumption | lra].
+  Ltac abs_cases :=
+    repeat match goal with
+    | |- context [Rabs ?x] =>
+        first [rewrite (Rabs_left x) in * by ord | rewrite (Rabs_right x) in * by ord]
+    | H : context [Rabs ?x] |- _ =>
+        first [rewrite (Rabs_left x) in * by ord | rewrite (Rabs_right x) in * by ord]
+    end.
+  Ltac eval_tests :=
+    repeat match goal with
+    | |- context [Rltb ?a ?b] => first [rewrite (Rltb_t a b) by ord | rewrite (Rltb_f a b) by ord]
+    | |- context [Rleb ?a ?b] => first [rewrite (Rleb_t a b) by ord | rewrite (Rleb_f a b) by ord]
+    | |- context [Reqb ?a ?b] => first [rewrite (Reqb_t a b) by ord | rewrite (Reqb_f a b) by ord]
+    end.
+  Ltac args_eq_R :=
+    lazymatch goal with
+    | |- @eq R _ _ => first [reflexivity | lra | field; repeat split; ord]
+    | |- _ => first [reflexivity | progress f_equal; args_eq_R]
+    end.
+
+  Ltac finish_case Hn :=
+    abs_cases; eval_tests;
+    cbn [andb orb negb app deref_add file_given file_data fst snd];
+    rewrite ?(gen_add_assign RF E);
+    rewrite ?(add_into_sum (cpx RF) cpx0 (l_cadd E)) by exact Hn; cbn [app];
+    args_eq_R.
+
+  Section Factory.
+    Variable PPc : Z -> R -> R -> R -> list creal.
+    Variable FSc : Z -> R -> R -> list creal.
+    Variable RWc : Z -> R -> R -> R -> R -> R -> R -> list creal.
+    Variable COLLc : Z -> R -> R -> R -> list creal.
+
+    Theorem gen_factory_with_R n fmax R_bend frev gap use_csr s xi rc file :
+      (0 <= n)%Z -> R_bend <> 0 -> frev <> 0 ->
+      makeImpedance_with RF E PPc FSc RWc COLLc n fmax R_bend frev gap use_csr s xi rc file =
+      sp_factory_with E PPc FSc RWc COLLc n fmax R_bend frev gap use_csr s xi rc file.
+    Proof.
+      intros Hn HR Hf. pose proof PI_RGT_0 as Hpi.
+      unfold makeImpedance_with, sp_factory_with, g_any_selected, g_parts, g_sel_pp, g_sel_fs, g_sel_csr,
+        g_sel_rw, g_sel_coll, sp_radius, sp_f0, two.
+      cbv zeta. rewrite (gen_zeros RF E), (zero_vec_sum (cpx RF) cpx0 (l_cadd E) n).
+      change (l_ltb E) with Rltb. change (l_leb E) with Rleb. change (l_eqb E) with Reqb.
+      change (l_ab E) with Rabs. change (l_c E) with c. change (l_pi E) with PI.
+      change (@fadd RF) with Rplus. change (@fmul RF) with Rmult. change (@fsub RF) with Rminus.
+      change (@fopp RF) with Ropp. change (@fdiv RF) with Rdiv. change (@f0 RF) with 0. change (@f1 RF) with 1.
+      destruct (Rtotal_order gap 0) as [Hg|[Hg|Hg]];
+        [ | destruct use_csr; destruct file as [d|]; finish_case Hn | ];
+        destruct (Rlt_dec 0 s) as [Hs|Hs]; destruct (Rle_dec (- (1)) xi) as [Hx|Hx];
+        destruct (Rlt_dec 0 rc) as [Hc0|Hc0]; destruct (Rlt_dec rc (Rabs (gap / (1 + 1)))) as [Hc1|Hc1];
+        destruct use_csr; destruct file as [d|]; finish_case Hn.
+    Qed.
+  End Factory.
+
+  Theorem gen_factory_R n fmax R_bend frev gap use_csr s xi rc file :
+    (0 <= n)%Z -> R_bend <> 0 -> frev <> 0 ->
+    makeImpedance RF E n fmax R_bend frev gap use_csr s xi rc file =
+    sp_factory_with E PP (FreeSpaceCSR_ctor RF E) (ResistiveWall_ctor RF E) (CollimatorImpedance_ctor RF E)
+                    n fmax R_bend frev gap use_csr s xi rc file.
+  Proof. intros. unfold makeImpedance. apply gen_factory_with_R; assumption. Qed.
+
+  (** what the switches of the specification mean over the reals *)
+  Lemma Rleb_true a b : Rleb a b = true -> a <= b.
+  Proof. unfold Rleb. destruct (Rle_dec a b); [trivial|discriminate]. Qed.
+
+  Theorem switch_meaning gap use_csr s xi rc :
+    (g_sel_pp E gap use_csr = true <-> 0 < gap /\ use_csr = true) /\
+    (g_sel_fs E gap use_csr = true <-> gap < 0 /\ use_csr = true) /\
+    (g_sel_rw E gap s xi = true <-> gap <> 0 /\ 0 < s /\ - (1) <= xi) /\
+    (g_sel_coll E gap rc = true <-> gap <> 0 /\ 0 < rc /\ rc < Rabs gap / 2).
+  Proof.
+    unfold g_sel_pp, g_sel_fs, g_sel_csr, g_sel_rw, g_sel_coll, sp_radius, two.
+    change (l_ltb E) with Rltb. change (l_leb E) with Rleb. change (l_eqb E) with Reqb. change (l_ab E) with Rabs.
+    change (@fadd RF) with Rplus. change (@fopp RF) with Ropp. change (@fdiv RF) with Rdiv.
+    change (@f0 RF) with 0. change (@f1 RF) with 1.
+    assert (A : Rabs (gap / (1 + 1)) = Rabs gap / 2).
+    { unfold Rdiv. rewrite Rabs_mult. f_equal. rewrite Rabs_right; lra. }
+    rewrite A.
+    rewrite !andb_true_iff, !negb_true_iff.
+    split; [|split; [|split]]; (split; [intros H|intros H]).
+    - destruct H as [[G U] P]. apply Rltb_true in P. tauto.
+    - destruct H as [P U]. rewrite (Reqb_f gap 0) by lra. rewrite (Rltb_t 0 gap) by lra. tauto.
+    - destruct H as [[G U] P]. apply Reqb_false in G. unfold Rltb in P.
+      destruct (Rlt_dec 0 gap); [discriminate|]. split; [lra|exact U].
+    - destruct H as [P U]. rewrite (Reqb_f gap 0) by lra. rewrite (Rltb_f 0 gap) by lra. tauto.
+    - destruct H as [G [P Q]]. apply Reqb_false in G. apply Rltb_true in P. apply Rleb_true in Q. tauto.
+    - destruct H as [G [P Q]]. rewrite (Reqb_f gap 0) by lra. rewrite (Rltb_t 0 s) by lra.
+      rewrite (Rleb_t (- (1)) xi) by lra. tauto.
+    - destruct H as [G [P Q]]. apply Reqb_false in G. apply Rltb_true in P, Q. tauto.
+    - destruct H as [G [P Q]]. rewrite (Reqb_f gap 0) by lra. rewrite (Rltb_t 0 rc) by lra.
+      rewrite (Rltb_t rc (Rabs gap / 2)) by lra. tauto.
+  Qed.
+
+  (** *** passivity of the generated factory on the documented domain: any non-zero gap (negative:
+      free space; positive: parallel plates), any combination of switches.  What selects a
+      contribution also puts its parameters into the range where its resistance is non-negative:
+      the wall needs [s > 0] and gets the radius [|gap/2| > 0] and the length [c/frev >= 0]; the
+      collimator needs [0 < r_coll < |gap/2|], which makes [ln(|gap/2|/r_coll)] positive. *)
   Theorem gen_factory_passive n fmax R_bend frev gap use_csr s xi rc file v :
     (2 <= n)%Z -> 0 < c -> 0 < Z0 -> R_bend <> 0 -> 0 < frev ->
     (forall a b g, Forall passive (PP n a b g)) ->
@@ -94,7 +205,7 @@ Section R.
     makeImpedance RF E n fmax R_bend frev gap use_csr s xi rc file = Some v -> Forall passive v.
   Proof.
     intros Hn Hc HZ HR Hf Hpp Hfile Ev.
-    rewrite (gen_factory RF E) in Ev; [|lia|exact HR|apply Rgt_not_eq; exact Hf|exact PI_neq0].
+    rewrite gen_factory_R in Ev; [|lia|exact HR|apply Rgt_not_eq; exact Hf].
     unfold sp_factory_with in Ev. destruct (g_any_selected E gap use_csr s xi rc file); [|discriminate].
     injection Ev as <-.
     apply (pointwise_sum_P creal cr0 cr_add passive passive0 passive_add).
@@ -113,7 +224,7 @@ Section R.
       change (@f0 RF) with 0 in Sg, Ss.
       match goal with |- context [ResistiveWall_ctor RF E n frev fmax ?L s xi ?b] => set (bb := b); set (LL := L) end.
       assert (Hb : 0 < bb).
-      { unfold bb. change (l_ab E) with Rabs. apply Rabs_pos_lt. intro H.
+      { unfold bb, sp_radius. change (l_ab E) with Rabs. apply Rabs_pos_lt. intro H.
         change (gap / (1 + 1) = 0) in H. apply Sg. lra. }
       assert (HL : 0 <= LL).
       { unfold LL. change (0 <= c / frev). apply Rlt_le. apply Rdiv_lt_0_compat; assumption. }
@@ -122,7 +233,7 @@ Section R.
     - destruct (g_sel_coll E gap rc) eqn:Sel; constructor; [|constructor].
       unfold g_sel_coll in Sel. apply andb_true_iff in Sel. destruct Sel as [_ Sw].
       apply andb_true_iff in Sw. destruct Sw as [S0 S1]. apply Rltb_true in S0, S1.
-      change (@f0 RF) with 0 in S0. fold (sp_radius E gap).
+      change (@f0 RF) with 0 in S0.
       rewrite gen_coll_R; [|lia|lra]. apply coll_vec_passive; assumption.
     - destruct file as [d|]; constructor; [apply Hfile; reflexivity|constructor].
   Qed.
